@@ -181,7 +181,7 @@ def _exercise_facade(res, fac, kind):
     ok, keys = _touch(res, f"{cls}.devices", lambda: fac.devices)
     if ok:
         for k in list(keys) + ["no-such-key"]:
-            ok2, d = _touch(res, f"{cls}.get_device", lambda k=k: fac.get_device(k))
+            ok2, d = _touch(res, f"{cls}.get_device", lambda k=k: fac.get_device(k.encode('utf-8').decode('utf-8') if isinstance(k, str) else k))
             if ok2 and k != "no-such-key" and d is None:
                 res.fail(f"C11|lookup|{cls}", f"get_device({k!r}) returned None for a key listed by devices")
     rm = getattr(fac, "reminders_manager", None)  # public on the async facade only
